@@ -384,3 +384,40 @@ Proof.
   intros Hc Hl Hw Hi A. split; [unfold A, normal_lhs; now rewrite map_length|]. split; [apply normal_square|].
   exact (normal_regular n cols w Hc Hl Hw Hi).
 Qed.
+(* LOESS, unconditionally: the value is p(x) for THE polynomial p of degree <= deg that minimises the
+   tricube-weighted sum of squares over the window (existence and uniqueness) *)
+Theorem loess_is_the_local_fit xs ys deg span x sx sy cx cy w :
+  length xs = length ys -> 0 < span -> loess_prepare xs ys = (sx, sy) ->
+  loess_design sx sy (loess_q (length xs) span) (window_start 0 sx (loess_q (length xs) span) x) x = FOk (cx, cy, w) ->
+  enough_points deg cx w ->
+  exists beta v, loess xs ys (Z.of_nat deg) span x = FOk (beta, v) /\ v == poly_eval beta x /\
+    length beta = S deg /\
+    (forall beta', length beta' = S deg -> SSR (monomials deg cx) w cy beta <= SSR (monomials deg cx) w cy beta') /\
+    (forall beta', length beta' = S deg -> SSR (monomials deg cx) w cy beta' <= SSR (monomials deg cx) w cy beta ->
+       Forall2 Qeq beta' beta).
+Proof.
+  intros Hl Hspan Ep Hd He.
+  destruct (loess_total xs ys deg span x sx sy cx cy w Hl Hspan Ep Hd He) as (beta & v & H).
+  exists beta, v. split; [exact H|].
+  pose proof (loess_inv _ _ _ _ _ _ _ H) as (sx' & sy' & cx' & cy' & w' & Ep' & _ & Hd' & Hr & Hf).
+  cbv zeta in Hd'. rewrite Ep in Ep'. inversion Ep'; subst sx' sy'. rewrite Hd in Hd'. inversion Hd'; subst cx' cy' w'.
+  destruct (prepare_spec xs ys sx sy Hl Ep) as (Hs & Hlx & Hly & _).
+  destruct (loess_design_spec _ _ _ _ _ _ _ _ Hs Hd) as (Ecx & Ecy & d & Hdpos & Hdist & _ & Ew).
+  assert (Hwn : Forall (Qle 0) w).
+  { rewrite Ew, Forall_forall. intros t Ht. apply in_map_iff in Ht as (c & <- & Hc). apply tricube_nonneg; auto. }
+  assert (Hlc : length cy = length cx) by (rewrite Ecx, Ecy, !firstn_length, !skipn_length; lia).
+  assert (Hlw : length w = length cx) by (rewrite Ew; apply map_length).
+  rewrite polyreg_is_lls_on_monomials in Hr.
+  destruct (lls_minimises _ _ _ _ _ Hr (monomials_cols deg cx) Hwn) as (Hb & _ & Hmin).
+  rewrite monomials_len in Hb, Hmin. cbn [weights_or_ones] in Hmin.
+  split; [now apply F_is_poly_eval|]. split; [exact Hb|]. split; [exact Hmin|].
+  intros beta' Lb' Hle.
+  apply (minimiser_unique (length cx) (monomials deg cx) w cy beta beta').
+  - repeat split; auto. apply monomials_cols.
+  - intros i Hi. apply Forall_vn_nonneg; [exact Hwn | now rewrite Hlw].
+  - now apply enough_points_indep.
+  - now rewrite monomials_len.
+  - now rewrite monomials_len.
+  - intros b Lb. apply Hmin. now rewrite monomials_len in Lb.
+  - exact Hle.
+Qed.
